@@ -33,7 +33,8 @@ CLAIMS.update({
               'C10_err_only_origin (an error is returned only on a path where an origin call failed; never neither-response-nor-error), '
               'C10_store_faults (unreadable index => exactly one origin call with the client request, its reply is returned). '
               'Partial: panics/hangs inside net/http, encoding/json, slog and goroutine scheduling are not expressible in the model; '
-              'they are exercised by the run (recover() around RoundTrip, body-stream failures, monitor mon_C10).'),
+              'they are exercised by the run: recover() around RoundTrip, body-stream failures, a crash of the process attributed to the case being run, and every generated history '
+              'run twice more with 1-4 store operations failing at seeded positions (error; for Get also undecodable bytes, the text [null], a truncated value), monitor mon_C10.'),
         note=COMMON_NOTE),
     'C13': dict(
         text=('Theorems C13_only_eligible_failures, C13_shape, C13_within_window (CanStaleOnError over the stored response\'s and the request\'s '
